@@ -523,10 +523,12 @@ def getterCompat (args : List Nat) (pre : List FieldP) (k : FKind) : GKind → B
   | .readArgsArray r gas =>
     match k with
     | .computed (.mul _ (.compute r' xs)) => decide (r = r') && gargsMatch args pre gas xs
+    | .condComputed _ (.mul _ (.compute r' xs)) => decide (r = r') && gargsMatch args pre gas xs
     | _ => false
   | .readArgsStruct r gas =>
     match k with
     | .computed (.one (.compute r' xs)) => decide (r = r') && gargsMatch args pre gas xs
+    | .condComputed _ (.one (.compute r' xs)) => decide (r = r') && gargsMatch args pre gas xs
     | _ => false
   | .varLen =>
     match k with
